@@ -98,9 +98,11 @@ pub fn run(t: &mut Toks) -> String {
             .map(|d| {
                 let a = d.exact_args.unwrap();
                 format!(
-                    "{{\"cell\":{},\"dual\":[{},{},{}],\"args\":{},\"clip\":{}}}",
+                    "{{\"cell\":{},\"dual\":[{},{},{}],\"args\":{},\"clip\":{},\"right\":{},\"shift\":{}}}",
                     d.cell, d.dual[0], d.dual[1], d.dual[2],
-                    json::arr(&a, |p| format!("[{},{},{}]", p[0], p[1], p[2])), f(d.clip)
+                    json::arr(&a, |p| format!("[{},{},{}]", p[0], p[1], p[2])), f(d.clip),
+                    d.plane.0.map_or(-1i64, |r| r as i64),
+                    d.plane.1.map_or("null".to_string(), json::v3)
                 )
             })
             .collect();
